@@ -15,12 +15,21 @@ Fixpoint padj_chain (m : mem) (prev : Z) (l : list Z) (he : Z) : Prop :=
   | a :: r => n_prev_adj m a = prev /\ padj_chain m a r he
   end.
 
+Definition is_hdr (he : Z) (chunks : list chunk) (a : Z) : Prop := In a (map c_addr chunks) \/ a = he.
+
+(* the used mark (next = 1, prev = NODE_COOKIE) is found at no 16-aligned address other than the
+   chunk headers and the end node: nothing the allocator leaves behind in a payload (absorbed headers,
+   old bin links) looks like an allocated chunk *)
+Definition marks_ok (he : Z) (m : mem) (chunks : list chunk) : Prop :=
+  forall n, n mod 16 = 0 -> is_used m n = true -> is_hdr he chunks n.
+
 Record Rep (he : Z) (m : mem) (bins_c : list Z) (chunks : list chunk) (bins_a : list (list Z)) : Prop := {
   rp_sizes : Forall (fun x => n_size m (c_addr x) = c_sz x) chunks;
   rp_padj : padj_chain m 0 (map c_addr chunks) he;
   rp_used : Forall (fun x => c_used x = true -> is_used m (c_addr x) = true) chunks;
   rp_end : n_size m he = 0 /\ is_used m he = true;
-  rp_bins : bins_rep m bins_c bins_a
+  rp_bins : bins_rep m bins_c bins_a;
+  rp_marks : marks_ok he m chunks
 }.
 
 (* ---------- the invariant of the micro-steps ----------
@@ -37,7 +46,84 @@ Record MI (hs he : Z) (m : mem) (bins_c : list Z) (chunks : list chunk) (bins_a 
   mi_rep : Rep he m bins_c chunks bins_a
 }.
 
-Definition is_hdr (he : Z) (chunks : list chunk) (a : Z) : Prop := In a (map c_addr chunks) \/ a = he.
+Lemma is_used_true m n : is_used m n = true <-> mget m (n + 16) = 1 /\ mget m (n + 24) = NODE_COOKIE.
+Proof.
+  unfold is_used, n_next, n_prev. rewrite andb_true_iff, !Z.eqb_eq. tauto.
+Qed.
+
+Lemma is_used_frame m m' a :
+  mget m' (a + 16) = mget m (a + 16) -> mget m' (a + 24) = mget m (a + 24) -> is_used m' a = is_used m a.
+Proof. intros H1 H2. unfold is_used, n_next, n_prev. rewrite H1, H2. reflexivity. Qed.
+
+Lemma cookie_mod : NODE_COOKIE mod 16 = 15.
+Proof. reflexivity. Qed.
+
+Lemma padj_aligned m he l : forall p, p mod 16 = 0 -> Forall (fun a => a mod 16 = 0) l -> padj_chain m p l he ->
+  forall h, In h l \/ h = he -> n_prev_adj m h mod 16 = 0.
+Proof.
+  induction l as [|a r IH]; intros p Hp Hl H h Hh; cbn [padj_chain] in H.
+  - destruct Hh as [[] | ->]. rewrite H. exact Hp.
+  - destruct H as [H1 H2]. pose proof (Forall_inv Hl) as Ha. pose proof (Forall_inv_tail Hl) as Hr.
+    destruct Hh as [[-> | Hh] | ->].
+    + rewrite H1. exact Hp.
+    + apply (IH a); auto.
+    + apply (IH a); auto.
+Qed.
+
+(* how the mark invariant is re-established after a step: it is enough to look at the aligned
+   addresses whose two mark words are not header words of the new state *)
+Lemma marks_step he m' chunks' :
+  aligned_chunks chunks' -> padj_chain m' 0 (map c_addr chunks') he ->
+  n_size m' he = 0 -> is_used m' he = true ->
+  (forall n, n mod 16 = 0 -> is_used m' n = true -> ~ is_hdr he chunks' n ->
+     (forall h k, is_hdr he chunks' h -> (k = 0 \/ k = 8 \/ k = 16 \/ k = 24) -> n + 16 <> h + k /\ n + 24 <> h + k) ->
+     False) ->
+  marks_ok he m' chunks'.
+Proof.
+  intros Hal Hp He0 Heu Hstep n Hn Hu.
+  assert (Hal' : Forall (fun a => a mod 16 = 0) (map c_addr chunks')).
+  { unfold aligned_chunks in Hal. rewrite Forall_forall in *. intros a Ha. apply in_map_iff in Ha. destruct Ha as (x & <- & Hx). apply Hal. exact Hx. }
+  pose proof (padj_aligned m' he _ 0 eq_refl Hal' Hp) as Hpa.
+  pose proof cookie_mod as Hck.
+  pose proof Hu as Hu'. apply is_used_true in Hu' as [U1 U2]. apply is_used_true in Heu as [E1 E2]. unfold n_size in He0.
+  destruct (in_dec Z.eq_dec n (map c_addr chunks')) as [Hin | Hnin]; [left; exact Hin|].
+  destruct (Z.eq_dec n he) as [-> | Hne]; [right; reflexivity|].
+  exfalso.
+  destruct (in_dec Z.eq_dec (n + 16) (map c_addr chunks')) as [Hin1 | Hnin1].
+  { pose proof (Hpa (n + 16) (or_introl Hin1)) as Hx. unfold n_prev_adj in Hx. replace (n + 16 + 8) with (n + 24) in Hx by lia.
+    rewrite U2 in Hx. rewrite Hck in Hx. discriminate Hx. }
+  destruct (Z.eq_dec (n + 16) he) as [E | Hne1].
+  { pose proof (Hpa he (or_intror eq_refl)) as Hx. unfold n_prev_adj in Hx. rewrite <- E in Hx. replace (n + 16 + 8) with (n + 24) in Hx by lia.
+    rewrite U2 in Hx. rewrite Hck in Hx. discriminate Hx. }
+  destruct (Z.eq_dec (n + 16) (he + 8)) as [E | Hne2].
+  { pose proof (Hpa he (or_intror eq_refl)) as Hx. unfold n_prev_adj in Hx. rewrite <- E, U1 in Hx. discriminate Hx. }
+  destruct (Z.eq_dec (n + 16) (he + 24)) as [E | Hne3].
+  { rewrite E, E2 in U1. discriminate U1. }
+  destruct (Z.eq_dec (n + 24) he) as [E | Hne4].
+  { rewrite E, He0 in U2. discriminate U2. }
+  destruct (Z.eq_dec (n + 24) (he + 16)) as [E | Hne5].
+  { rewrite E, E1 in U2. discriminate U2. }
+  apply (Hstep n Hn Hu).
+  { intros [H | H]; contradiction. }
+  intros h k [Hh | ->] Hk.
+  - assert (Hha : h mod 16 = 0) by (rewrite Forall_forall in Hal'; apply Hal'; exact Hh).
+    assert (h <> n) by (intros ->; contradiction). assert (h <> n + 16) by (intros ->; contradiction).
+    Z.div_mod_to_equations. lia.
+  - lia.
+Qed.
+
+(* the common case: the step writes header words of the new state only, and no header disappears *)
+Lemma marks_frame he m m' chunks chunks' :
+  marks_ok he m chunks -> aligned_chunks chunks' -> padj_chain m' 0 (map c_addr chunks') he ->
+  n_size m' he = 0 -> is_used m' he = true ->
+  (forall a, is_hdr he chunks a -> is_hdr he chunks' a) ->
+  (forall w, (forall h k, is_hdr he chunks' h -> (k = 0 \/ k = 8 \/ k = 16 \/ k = 24) -> w <> h + k) -> mget m' w = mget m w) ->
+  marks_ok he m' chunks'.
+Proof.
+  intros Hm Hal Hp He0 Heu Hsub Hfr. apply marks_step; auto.
+  intros n Hn Hu Hnh Hw. apply Hnh. apply Hsub. apply Hm; [exact Hn|].
+  rewrite <- Hu. apply is_used_frame; symmetry; apply Hfr; intros h k Hh Hk; destruct (Hw h k Hh Hk); auto.
+Qed.
 
 Section Struct.
 Variables (hs he : Z) (chunks : list chunk).
@@ -133,10 +219,6 @@ Lemma padj_chain_app m he l1 a l2 : forall p,
 Proof.
   induction l1 as [|b r IH]; intros p; cbn [app padj_chain]; [tauto|]. rewrite IH. tauto.
 Qed.
-
-Lemma is_used_frame m m' a :
-  mget m' (a + 16) = mget m (a + 16) -> mget m' (a + 24) = mget m (a + 24) -> is_used m' a = is_used m a.
-Proof. intros H1 H2. unfold is_used, n_next, n_prev. rewrite H1, H2. reflexivity. Qed.
 
 Lemma bins_rep_frame m m' bins_c bins_a :
   (forall i a, 0 <= i < BIN_COUNT -> In a (bin_nth bins_a i) ->
@@ -266,6 +348,23 @@ Proof.
       * unfold n_size. rewrite Hkeep; [exact E1|]. intros b Hb. destruct (Hb32 b Hb). lia.
       * rewrite <- E2. apply is_used_frame; apply Hkeep; intros b Hb; destruct (Hb32 b Hb); lia.
     + exact Hbr.
+    + intros n Hn Hu. destruct (in_dec Z.eq_dec n (bin_nth bins_a i)) as [Hnb | Hnb]; [apply (Hb32 n Hnb)|].
+      apply (rp_marks _ _ _ _ _ Hrep n Hn). rewrite <- Hu. symmetry.
+      apply is_used_frame; apply Hkeep; intros b Hb; (assert (b <> n) by (intros ->; contradiction));
+        destruct (Hb32 b Hb) as [Hbh Hbe]; destruct (hdr_pos hs he chunks Hpos Ht Hal b Hbh) as [[_ Hba] | ->]; try lia;
+        Z.div_mod_to_equations; lia.
+Qed.
+
+(* the unlinked node keeps its own (unmarked) link words *)
+Lemma unlink_own_unused hs he m bins_c chunks bins_a i a :
+  MI hs he m bins_c chunks bins_a -> 0 <= i < BIN_COUNT -> In a (bin_nth bins_a i) ->
+  is_used (unlink_mem m a) a = false.
+Proof.
+  intros HM Hi Ha. destruct (M1_unlink hs he m bins_c chunks bins_a i a HM Hi Ha) as (bc & _ & _ & Hfr).
+  rewrite <- (mi_member_not_used _ _ _ _ _ _ HM i a Hi Ha).
+  destruct (mi_member_hdr _ _ _ _ _ _ HM i a Hi Ha) as (_ & _ & _ & Haa).
+  apply is_used_frame; apply Hfr; intros b Hb Hne;
+    destruct (mi_member_hdr _ _ _ _ _ _ HM i b Hi Hb) as (_ & _ & _ & Hba); Z.div_mod_to_equations; lia.
 Qed.
 
 Lemma tiled_same_geom s e pre x x' post :
@@ -342,6 +441,10 @@ Proof.
       destruct (mi_member_hdr _ _ _ _ _ _ HM i c Hi Hc) as (Hch & _ & _).
       assert (c <> a) by (intros ->; apply (Hnot i Hi); exact Hc).
       split; apply (Hother c _ Hch H); lia.
+    + intros n Hn Hu. unfold is_hdr. rewrite (map_addr_mid pre post x x' eq_refl). fold (is_hdr he (pre ++ x :: post) n).
+      destruct (Z.eq_dec n a) as [-> | Hna]; [exact Hah|].
+      apply (rp_marks _ _ _ _ _ Hrep n Hn). rewrite <- Hu. symmetry.
+      apply is_used_frame; apply Hfr; Z.div_mod_to_equations; lia.
 Qed.
 
 (* ---------- M2: push a free chunk that is in no bin ---------- *)
@@ -428,15 +531,23 @@ Proof.
         replace (he + 0) with he by lia. exact E1.
       * rewrite <- E2. apply is_used_frame; apply Hk1; auto; right; reflexivity.
     + exact Hbr.
+    + intros n Hn Hu. destruct (Z.eq_dec n a) as [-> | Hna]; [exact Hah|].
+      destruct (in_dec Z.eq_dec n (bin_nth bins_a i)) as [Hnb | Hnb]; [apply (mi_member_hdr _ _ _ _ _ _ HM i n Hi Hnb)|].
+      apply (rp_marks _ _ _ _ _ Hrep n Hn). rewrite <- Hu. symmetry.
+      apply is_used_frame; apply Hfr; try (Z.div_mod_to_equations; lia);
+        intros b Hb; (assert (b <> n) by (intros ->; contradiction));
+        destruct (mi_member_hdr _ _ _ _ _ _ HM i b Hi Hb) as (Hbh & Hbe & _);
+        destruct (hdr_pos hs he chunks Hpos Ht Hal b Hbh) as [[_ Hba] | ->]; try lia; Z.div_mod_to_equations; lia.
 Qed.
 
 (* ---------- only header words matter ---------- *)
 Lemma MI_ext hs he m m' bins_c chunks bins_a :
   MI hs he m bins_c chunks bins_a ->
   (forall h k, is_hdr he chunks h -> (k = 0 \/ k = 8 \/ k = 16 \/ k = 24) -> mget m' (h + k) = mget m (h + k)) ->
+  (forall n, n mod 16 = 0 -> ~ is_hdr he chunks n -> is_used m' n = true -> is_used m n = true) ->
   MI hs he m' bins_c chunks bins_a.
 Proof.
-  intros HM Hf. pose proof HM as [Hpos Htop Ht Hal Hmem Hgood Hrep]. split; try assumption.
+  intros HM Hf Hmk. pose proof HM as [Hpos Htop Ht Hal Hmem Hgood Hrep]. split; try assumption.
   split.
   - rewrite Forall_forall. intros y Hy. unfold n_size. replace (c_addr y) with (c_addr y + 0) by lia.
     rewrite Hf; [|left; apply in_map; exact Hy | auto]. replace (c_addr y + 0) with (c_addr y) by lia.
@@ -453,6 +564,10 @@ Proof.
     + rewrite <- E2. apply is_used_frame; apply Hf; auto; right; reflexivity.
   - eapply bins_rep_frame; [|exact (rp_bins _ _ _ _ _ Hrep)]. intros i c Hi Hc.
     destruct (mi_member_hdr _ _ _ _ _ _ HM i c Hi Hc) as (Hch & _). split; apply Hf; auto.
+  - intros n Hn Hu.
+    destruct (in_dec Z.eq_dec n (map c_addr chunks)) as [Hin | Hnin]; [left; exact Hin|].
+    destruct (Z.eq_dec n he) as [-> | Hne]; [right; reflexivity|].
+    apply (rp_marks _ _ _ _ _ Hrep n Hn). apply Hmk; auto. intros [? | ?]; contradiction.
 Qed.
 
 Lemma tiled_next hs he pre x post :
@@ -559,6 +674,26 @@ Proof.
       destruct (in_mid_cases z x pre post Hz) as [-> | Hz'].
       * fold a. split; apply Hfr; unfold sp, nx; lia.
       * split; apply Hkeep; auto; lia.
+    + intros n Hn Hu. pose proof cookie_mod as Hck.
+      assert (Hspa : sp mod 16 = 0) by (unfold sp; Z.div_mod_to_equations; lia).
+      pose proof Hu as Hu'. apply is_used_true in Hu' as [U1 U2].
+      assert (Hold : is_used m n = true -> is_hdr he (pre ++ x1 :: x2 :: post) n).
+      { intros Ho. destruct (rp_marks _ _ _ _ _ Hrep n Hn Ho) as [Hi | ->]; [left | right; reflexivity].
+        rewrite map_app in Hi |- *. cbn [map] in Hi |- *. apply in_app_or in Hi. apply in_or_app. cbn [In] in Hi |- *.
+        unfold x1. cbn [c_addr]. fold a in Hi. tauto. }
+      destruct (Z.eq_dec (n + 16) a) as [E1 | N1].
+      { exfalso. assert (Hal0 : Forall (fun c => c mod 16 = 0) (map c_addr (pre ++ x :: post))).
+        { unfold aligned_chunks in Hal. rewrite Forall_forall in *. intros c Hc. apply in_map_iff in Hc. destruct Hc as (y & <- & Hy). apply Hal. exact Hy. }
+        pose proof (padj_aligned m he _ 0 eq_refl Hal0 (rp_padj _ _ _ _ _ Hrep) a (or_introl (in_map c_addr _ _ Hxin))) as Hx.
+        unfold n_prev_adj in Hx. rewrite <- (Hfr (a + 8)) in Hx by (unfold sp, nx; lia).
+        replace (a + 8) with (n + 24) in Hx by lia. rewrite U2, Hck in Hx. discriminate Hx. }
+      destruct (Z.eq_dec (n + 16) sp) as [E2 | N2].
+      { exfalso. replace (n + 24) with (sp + 8) in U2 by lia. rewrite W3 in U2. rewrite U2, Hck in Ha4. discriminate Ha4. }
+      destruct (Z.eq_dec (n + 16) (nx + 8)) as [E3 | N3].
+      { exfalso. rewrite E3, W4 in U1. rewrite U1 in Hspa. discriminate Hspa. }
+      destruct (Z.eq_dec (n + 24) (nx + 8)) as [E4 | N4].
+      { exfalso. rewrite E4, W4 in U2. rewrite U2, Hck in Hspa. discriminate Hspa. }
+      apply Hold. rewrite <- Hu. symmetry. apply is_used_frame; apply Hfr; try assumption; try lia; Z.div_mod_to_equations; lia.
 Qed.
 
 (* ---------- M5: a chunk absorbs its successor (which is in no bin) ---------- *)
@@ -567,10 +702,11 @@ Lemma M5_merge hs he m m' bins_c pre y z post bins_a :
   (forall i, 0 <= i < BIN_COUNT -> ~ In (c_addr z) (bin_nth bins_a i)) ->
   let a := c_addr y in let nsz := c_sz y + NODE + c_sz z in let nx := a + NODE + nsz in
   mget m' a = nsz -> mget m' (nx + 8) = a ->
-  (forall w, w <> a -> w <> nx + 8 -> mget m' w = mget m w) ->
+  (forall w, w <> a -> w <> nx + 8 -> w <> c_addr z + 16 -> w <> c_addr z + 24 -> mget m' w = mget m w) ->
+  is_used m' (c_addr z) = false ->
   MI hs he m' bins_c (pre ++ mkchunk a nsz (c_used y) :: post) bins_a.
 Proof.
-  intros HM Hznot a nsz nx W1 W2 Hfr. pose proof HM as [Hpos Htop Ht Hal Hmem Hgood Hrep].
+  intros HM Hznot a nsz nx W1 W2 Hfr Hzun. pose proof HM as [Hpos Htop Ht Hal Hmem Hgood Hrep].
   pose proof NODE_eq as HN.
   assert (Hyin : In y (pre ++ y :: z :: post)) by (apply in_or_app; right; left; reflexivity).
   assert (Hzin : In z (pre ++ y :: z :: post)) by (apply in_or_app; right; right; left; reflexivity).
@@ -645,4 +781,23 @@ Proof.
       * fold a. split; apply Hfr; unfold nx, nsz; lia.
       * exfalso. apply (Hznot i Hi). exact Hc.
       * split; apply Hkeep; auto; lia.
+    + intros n Hn Hu. pose proof cookie_mod as Hck.
+      destruct (chunk_bounds hs he _ Ht Hal z Hzin) as (_ & _ & _ & Hz4).
+      pose proof Hu as Hu'. apply is_used_true in Hu' as [U1 U2].
+      destruct (Z.eq_dec n (c_addr z)) as [-> | Nz]; [rewrite Hzun in Hu; discriminate Hu|].
+      assert (Hold : is_used m n = true -> is_hdr he (pre ++ y' :: post) n).
+      { intros Ho. destruct (rp_marks _ _ _ _ _ Hrep n Hn Ho) as [Hi | ->]; [left | right; reflexivity].
+        rewrite map_app in Hi |- *. cbn [map] in Hi |- *. apply in_app_or in Hi. apply in_or_app. cbn [In] in Hi |- *.
+        unfold y'. cbn [c_addr]. fold a in Hi. destruct Hi as [Hi | [Hi | [Hi | Hi]]]; auto. symmetry in Hi. contradiction. }
+      destruct (Z.eq_dec (n + 16) a) as [E1 | N1].
+      { exfalso. assert (Hal0 : Forall (fun c => c mod 16 = 0) (map c_addr (pre ++ y :: z :: post))).
+        { unfold aligned_chunks in Hal. rewrite Forall_forall in *. intros c Hc. apply in_map_iff in Hc. destruct Hc as (c0 & <- & Hc0). apply Hal. exact Hc0. }
+        pose proof (padj_aligned m he _ 0 eq_refl Hal0 (rp_padj _ _ _ _ _ Hrep) a (or_introl (in_map c_addr _ _ Hyin))) as Hx.
+        unfold n_prev_adj in Hx. rewrite <- (Hfr (a + 8)) in Hx by (unfold nx, nsz; lia).
+        replace (a + 8) with (n + 24) in Hx by lia. rewrite U2, Hck in Hx. discriminate Hx. }
+      destruct (Z.eq_dec (n + 16) (nx + 8)) as [E3 | N3].
+      { exfalso. rewrite E3, W2 in U1. rewrite U1 in Ha4. discriminate Ha4. }
+      destruct (Z.eq_dec (n + 24) (nx + 8)) as [E4 | N4].
+      { exfalso. rewrite E4, W2 in U2. rewrite U2, Hck in Ha4. discriminate Ha4. }
+      apply Hold. rewrite <- Hu. symmetry. apply is_used_frame; apply Hfr; try assumption; try lia; Z.div_mod_to_equations; lia.
 Qed.
